@@ -11,6 +11,7 @@ mod c12;
 mod c13;
 mod c14;
 mod c15;
+mod c16;
 mod c17;
 mod c18;
 mod ext;
@@ -52,6 +53,7 @@ fn main() {
         "c13" => c13::main(tier),
         "c14" => c14::main(tier),
         "c15" => c15::main(tier),
+        "c16" => c16::main(tier),
         "c17" => c17::main(tier),
         "c18" => c18::main(tier),
         "c20" => c20::main(tier),
